@@ -6,7 +6,7 @@ Line driver for the model of `core/bcast/bcast.go` (`CharonV.Model.CoreBcast`). 
 `harness/cmd/drive-corebcast/main.go`. The model reads only what follows ` | `:
 
   cfg … | …                                  (answer `ok`)
-  bc …  | <duty> <set|-> <vals> <duties> <dom> <sub|-> <facts|-> # <observed answer>
+  bc …  | <duty> <set|-> <vals> <duties> <dom> <sub|-> <facts|-> <order|-> # <observed answer>
           duty   := the Go `core.DutyType` number
           set    := v:ty:cid:sig:ver:blinded:idx|x:dataOk:slot:epoch:root;…   (ty: index into `sigTypes`)
           vals   := x (the call fails) | - | idx.isNil.active.activationEpoch,…
@@ -16,8 +16,12 @@ Line driver for the model of `core/bcast/bcast.go` (`CharonV.Model.CoreBcast`). 
           facts  := key.epoch.root.sig.res,…   res: 1 = tbls.Verify said nil, 2 = another error
                     (every tuple not listed: ErrSigNotVerified)
 
+          order  := v,v,… the set keys in the order in which their objects reached the beacon node
+                    (= the prefix of Go's iteration order that could be observed; `-`: nothing observed)
+
 Go's iteration order over the set is an oracle: the driver answers with the observed answer iff
-some order of the entries produces it, otherwise with the answer for the order as written.
+some order of the entries THAT STARTS WITH THE OBSERVED ORDER produces it, otherwise with the answer
+for the first such order (the order as written when there is none).
 
 Answer: `<class> <calls|->`, calls := call;call…, call := <endpoint>[!]{cid/sig/idx|x,…} with the
 items sorted, `!` = the node answered this call with an error.
@@ -131,7 +135,7 @@ def perms {α : Type} : List α → List (List α)
 
 def doBc (toks : List String) (obs : String) : Option String :=
   match toks with
-  | [duty, set, vals, duties, dom, sub, facts] => do
+  | [duty, set, vals, duties, dom, sub, facts, ordHint] => do
     let duty ← duty.toNat?
     let set ← parseList ";" parseEntry set
     let vals ← optList parseVal vals
@@ -142,10 +146,13 @@ def doBc (toks : List String) (obs : String) : Option String :=
     let bn : BN := ⟨vals, duties, dom, fun i => sub.getD i .ok⟩
     let run := fun (o : List (Validator × Obj)) =>
       render (broadcast (verifyOf facts) bn (fun _ => o) (dutyOf duty) set)
-    let cands := if set.length ≤ 6 then perms set else [set]
+    let hint ← parseList "," String.toNat? ordHint
+    let all := if set.length ≤ 6 then perms set else [set]
+    -- the observed iteration order (as far as objects were handed over) restricts the oracle
+    let cands := all.filter fun o => (o.map (·.1)).take hint.length == hint
     match cands.find? (fun o => run o == obs) with
     | some o => pure (run o)
-    | none => pure (run set)
+    | none => pure (run (cands.headD set))
   | _ => none
 
 def step (d : Unit) (line : String) : Unit × String :=
